@@ -202,10 +202,14 @@ def run(chk):
                 'Non-trivial = scenarios where at least two alternatives or variants accept the text.')
     chk.assumptions = ['the acceptance predicate Acc of each operand type over the text classes is part of the specification (derived from the operand syntax)',
                        'disallowed pairs are checked after the first accepting alternative per position is chosen (no backtracking), as the statement says "skipped"']
-    plan = [('one-operand', 'Pool1', 'Texts1', 2 if quick else 3), ('two-operand', 'Pool2', 'Texts2', 1 if quick else 2)]
-    for tag, pool, texts, mv in plan:
+    # (three one-operand variants out of a pool of 165 are 117 million scenarios: beyond two variants the space is sampled by TLC's simulator)
+    plan = [('one-operand', 'Pool1', 'Texts1', 2, None), ('two-operand', 'Pool2', 'Texts2', 1 if quick else 2, None)]
+    if not quick:
+        plan.append(('one-operand-three-variants-simulated', 'Pool1', 'Texts1', 3, 'num=60000'))
+    for tag, pool, texts, mv, sim in plan:
         res = tlc.run_tlc('MC_Match', f'SPECIFICATION Spec\nCONSTANTS\n  VariantPool <- {pool}\n  TextTuples <- {texts}\n  MaxVariants = {mv}\n'
-                          + ''.join(f'INVARIANT {i}\n' for i in INV), workers=16, timeout=3000)
+                          + ''.join(f'INVARIANT {i}\n' for i in INV), workers=16 if sim is None else 1, timeout=3000, simulate=sim, depth=(mv + 2) if sim else None,
+                          seed=chk.seed if sim else None)
         chk.add_tlc(res)
         emits = res.emits
         cap = 14000 if quick else 120000
